@@ -1,6 +1,7 @@
 package main
 
 import (
+	"fmt"
 	"strings"
 
 	"github.com/AdguardTeam/urlfilter/rules"
@@ -207,6 +208,36 @@ func init() {
 					emit("select\t" + encList(v))
 				}
 			}
+			// candidates together with the rules matching the page: $urlblock / $genericblock exceptions of the page switch
+			// blocking rules (all of them / the generic ones) off BEFORE they compete, whatever their priority
+			for i := 0; i < selects/2; i++ {
+				n := 1 + g.Intn(6)
+				var texts []string
+				for j := 0; j < n; j++ {
+					switch g.Intn(6) {
+					case 0:
+						texts = append(texts, Pick(g, []string{"||example.org^$important", "/ads$important", "||example.org^$important,script", "||example.org^$important,domain=a.org"}))
+					case 1:
+						texts = append(texts, Pick(g, []string{"||example.org^", "/ads", "||example.org^$script", "||example.org^$third-party"}))
+					case 2:
+						texts = append(texts, Pick(g, []string{"||example.org^$domain=a.org", "/ads$domain=a.org|b.org", "||example.org^$domain=a.org,script", "||example.org^$domain=~b.org"}))
+					case 3:
+						texts = append(texts, Pick(g, []string{"@@||example.org^", "@@/ads$domain=a.org", "@@||example.org^$important"}))
+					default:
+						texts = append(texts, featureRule(g))
+					}
+				}
+				var src []string
+				for j := g.Intn(4); j > 0; j-- {
+					src = append(src, Pick(g, []string{"@@||a.org^$genericblock", "@@||a.org^$urlblock", "@@||a.org^$document", "@@||a.org^$elemhide", "@@||a.org^$genericblock,important",
+						"@@||a.org^$genericblock,badfilter", "@@||a.org^$urlblock,badfilter", "||a.org^", "@@||a.org^", "@@||a.org^$generichide,genericblock", "@@||a.org^$jsinject", "@@||a.org^$stealth"}))
+				}
+				v, _ := validRules(texts)
+				sv, _ := validRules(src)
+				if len(v) > 0 {
+					emit("selectsrc\t" + encList(v) + "\t" + encList(sv))
+				}
+			}
 		},
 		Run: func(line string, st *Stats) (string, string, bool) {
 			f := strings.Split(line, "\t")
@@ -216,6 +247,51 @@ func init() {
 				return "INVALID-RULE-IN-CASE", line, false
 			}
 			switch f[0] {
+			case "selectsrc":
+				stexts := decList(f[2])
+				_, ss := validRules(stexts)
+				if len(ss) != len(stexts) {
+					return "INVALID-RULE-IN-CASE", line, false
+				}
+				w := rules.NewMatchingResult(rs, ss).BasicRule
+				// the competing candidates: effective rules that the page's exceptions leave enabled.  The winner is one
+				// of them and none of them outranks it; if any competes, one is selected
+				urlblock, genericblock := false, false
+				for _, s := range rules.RemoveBadfilterRules(ss) {
+					if s.Whitelist && s.DNSRewrite == nil {
+						urlblock = urlblock || s.IsOptionEnabled(rules.OptionUrlblock)
+						genericblock = genericblock || s.IsOptionEnabled(rules.OptionGenericblock)
+					}
+				}
+				flags := ""
+				competing := 0
+				for _, r := range rules.RemoveBadfilterRules(rs) {
+					if r.DNSRewrite != nil || r.IsOptionEnabled(rules.OptionCookie) || r.IsOptionEnabled(rules.OptionReplace) || r.IsOptionEnabled(rules.OptionCsp) || r.IsOptionEnabled(rules.OptionStealth) {
+						continue
+					}
+					if !r.Whitelist && (urlblock || (genericblock && r.IsGeneric())) {
+						if r == w {
+							flags = "!A-DISABLED-RULE-IS-SELECTED:" + r.RuleText
+						}
+						continue
+					}
+					competing++
+					if w != nil && r.IsHigherPriority(w) {
+						flags = "!OUTRANKED-BY:" + r.RuleText
+					}
+				}
+				if w == nil && competing > 0 && flags == "" {
+					flags = fmt.Sprintf("!NO-RULE-SELECTED-ALTHOUGH-%d-COMPETE", competing)
+				}
+				st.Inc("select_with_page_rules")
+				if urlblock || genericblock {
+					st.Inc("select_page_disables_blocking")
+				}
+				out := "nil"
+				if w != nil {
+					out = hx(w.RuleText)
+				}
+				return out + flags, line, len(rs) > 1
 			case "pairs":
 				n := len(rs)
 				m := make([][]bool, n)
